@@ -415,10 +415,6 @@ func (m *Model) availParam(n node, p Param) int {
 		if p.Optional {
 			return avUnknown
 		}
-		if m.nearest(n.s, p.K) == nil {
-			// decorated key without a visible provider: the shallow check depends on caching
-			return avUnknown
-		}
 		return m.availDecX(d, n.excl)
 	}
 	if p.Optional {
